@@ -1,5 +1,5 @@
 """C37 — prange gives sequential results and a safe exit on every schedule (structural clauses of the exit protocol)."""
-from ..rules import pC37, sC37
+from ..rules import pC37, sC37, s4C37
 
 ID = 'C37'
 TECHNIQUE = ('table agreement between the writer and the readers of the shared exit code (extracted from get_all_labels(), the emitted C templates and the '
@@ -9,7 +9,9 @@ TECHNIQUE = ('table agreement between the writer and the readers of the shared e
              'C-semantics evaluation of the extracted trip-count / loop-header / index expressions over all residue classes of small strides; event-trace analysis of the '
              'emitted label skeleton and of the writer (insertion point in front of / code writer after the parallel region) of every exit-protocol emission; slot-flow '
              '(def-use) analysis of the reduction operator from the in-place assignment to the sharing clause; decision tables of the node set-up methods '
-             '(range arguments, is_parallel, for-loop part transfer, thread-state bracket, return critical section) and of the clause emission of generate_loop')
+             '(range arguments, is_parallel, for-loop part transfer, thread-state bracket, return critical section) and of the clause emission of generate_loop; '
+             'path-forking abstract interpretation (unknown values are tokens with identity, the collector stack / collected set / clause lists are concrete) of the temp collector '
+             'protocol: FunctionState.allocate_temp / start_collecting_temps / stop_collecting_temps and the region generators with privatize_temps inlined')
 DECIDES = ('C37-WHY: the exit code trap_parallel_exit stores into parallel_why for each of continue/break/return/error (index in FunctionState.get_all_labels() '
            'order + the offset in the emitted `%d`) equals the `case N:` that end_parallel_control_flow_block dispatches to that kind of label; codes are distinct and '
            'non-zero; the "prefer error" store after `if (parallel_exc_type)` writes the error code; every emitted `if (parallel_why <op> N)` guard runs its body '
@@ -49,11 +51,19 @@ DECIDES = ('C37-WHY: the exit code trap_parallel_exit stores into parallel_why f
            'top-level constructs and with-blocks True, node.parent is the innermost enclosing construct, the prange body is visited while the node is on the stack; '
            'ParallelRangeTransform.visit_ForInStatNode hands every child attribute shared by ForInStatNode and ParallelRangeNode (target, body, else_clause) to the replacing node; '
            'end_parallel_block over error_label_used x acquire_gil emits the put_ensure_gil / put_release_ensured_gil bracket whenever either holds; visit_ReturnStatNode marks returns '
-           'inside a region and ReturnStatNode.generate_execution_code then stores the return value inside the `omp critical` block for every return-type class.')
+           'inside a region and ReturnStatNode.generate_execution_code then stores the return value inside the `omp critical` block for every return-type class. '
+           'C37-TEMPREG (sa/rules/s4C37.py): on every path of FunctionState.allocate_temp (type normalisation, free-list reuse, fresh name, zombie) taken while a collector is active, '
+           'the name returned is registered in the innermost collector; start_collecting_temps pushes a fresh empty collector and stop_collecting_temps pops and returns exactly it. '
+           'C37-TEMPPRIV (sa/rules/s4C37.py): ParallelWithBlockNode.generate_execution_code and ParallelRangeNode.generate_loop, per world is_parallel x is_nested_prange and every path '
+           '(privatize_temps and the FunctionState collector methods interpreted in place): collectors pushed are popped; when an active (not `#if 0`) `#pragma omp parallel` line is '
+           'opened, an object, a memoryview and two C temporaries allocated while self.body is generated are collected by a collector of this method and each is written into a '
+           'private()/firstprivate() clause through an insertion point captured while an active `#pragma omp` line was open; object and memoryview temps are firstprivate.')
 NOT_DECIDED = ('everything schedule-dependent: that reductions/lastprivate give sequential results for every thread count, schedule and chunk size; the nsteps/index '
-               'arithmetic for strides beyond the enumerated moduli and for C integer overflow / the int-typed abs() on wide index types; absence of data races in user bodies; the OpenMP flush placement; privatisation of temporaries (privatize_temps) and of closure '
-               'variables; which of several simultaneously raised exceptions wins.  The LIFO order of GIL vs free-threading lock is not required (only that the '
-               'transfer is inside both).  The firstprivate clause, the private/firstprivate classification of temporaries (privatize_temps), the shared() clause and the '
+               'arithmetic for strides beyond the enumerated moduli and for C integer overflow / the int-typed abs() on wide index types; absence of data races in user bodies; the OpenMP flush placement; privatisation of closure '
+               'variables; that every temporary a region uses is obtained through FunctionState.allocate_temp while the region is generated (temps allocated before the region and '
+               'still live inside it - start/stop/step, nsteps - are shared on purpose); collectors nested deeper than one (C37-TEMPREG evaluates one active collector); loops of '
+               'allocate_temp beyond two iterations; which of several simultaneously raised exceptions wins.  The LIFO order of GIL vs free-threading lock is not required (only that the '
+               'transfer is inside both).  The firstprivate clause of user variables, the shared() clause and the '
                'flush placement are not checked; C37-FLOW decides the presence of lastprivate/reduction clauses per variable class, not their position inside the pragma line.')
 ASSUMPTIONS = ['CCodeWriter label accessors forward to FunctionState (checked, ANALYSIS-ERROR otherwise)',
                'OpenMP reduction identifiers: OpenMP 5.2 section 5.5.5, implicitly declared identifiers for C/C++ (frozen in sa/rules/pC37.py)',
@@ -63,6 +73,8 @@ ASSUMPTIONS = ['CCodeWriter label accessors forward to FunctionState (checked, A
                'has_constant_result() true and constant_result = its value, a run-time step has has_constant_result() false',
                'C37-NODE: prange([start,] stop[, step]) as documented in docs/src/userguide/parallelism.rst (range() convention when the file is absent); a prange nested in a prange '
                'is compiled out (`#if 0`), so its is_parallel flag is not constrained',
+               'C37-TEMPREG/TEMPPRIV: collectors form a LIFO stack (one per OpenMP region being generated); with-blocks always have is_parallel True (decided by C37-NODE); an '
+               'un-interpreted call that receives the code writer may emit any number of complete lines; a text starting with `#` starts a line',
                'C37-FLOW: OpenMP 5.2: a list item assigned in a worksharing loop and read after it needs lastprivate; + - * & | ^ are the implicitly declared reduction identifiers '
                'whose combiner equals the Python in-place operator (table in sa/rules/pC37.py)']
 EXEMPT = {}
@@ -154,4 +166,5 @@ SILENT_EDITS += [   # fourth round (15 rewrites, all silent after three rules we
 
 def run(ctx):
     return [pC37.rule_why(ctx), pC37.rule_labels(ctx), pC37.rule_handoff(ctx), pC37.rule_stack(ctx), pC37.rule_reductions(ctx),
-            sC37.rule_emit(ctx), sC37.rule_trip(ctx), sC37.rule_seq(ctx), sC37.rule_node(ctx), sC37.rule_flow(ctx)]
+            sC37.rule_emit(ctx), sC37.rule_trip(ctx), sC37.rule_seq(ctx), sC37.rule_node(ctx), sC37.rule_flow(ctx),
+            s4C37.rule_tempreg(ctx), s4C37.rule_temppriv(ctx)]
